@@ -20,6 +20,10 @@ CHECKS = {
         "bounds": {}, "assumptions": [],
     },
     "ACTIONSMOKE": {"runs": [dict(ACTION, entries=["HSmoke"])], "bounds": {}, "assumptions": []},
+    "C17": {
+        "runs": [dict(pkg="./pkg/provenance", files=["pkg/provenance/h_c17_verify.go"], entries=["H17Verify"], bounds_quick={"entries": 2}, bounds_thorough={"entries": 3})],
+        "bounds": {}, "assumptions": [],
+    },
     "C18": {
         "runs": [dict(REPOPKG, entries=["H18Index"], bounds_quick={"entries": 2, "shapes": 6, "maxdigit": 3}, bounds_thorough={"entries": 3, "shapes": 6, "maxdigit": 9})],
         "bounds": {}, "assumptions": [],
@@ -87,6 +91,11 @@ CHECKS = {
         "bounds": {"quick": "atoms 1-4 symbolic bytes a-z; list index 0-3; arbitrary-input frame harness: 0-5 symbolic bytes over the 15-symbol alphabet -ay01=,.[]{}\\ and space",
                    "thorough": "same, frame harness 0-7 bytes"},
         "assumptions": ["symbolic bytes restricted to ASCII alphabets stated per harness"],
+    },
+    "C19": {
+        "runs": [dict(pkg="./pkg/getter", files=["pkg/getter/h_c19_get.go"], entries=["H19Get"], bounds_quick={"hostlen": 1}, bounds_thorough={"hostlen": 2}, optional_sites=["rejected/no-request-sent"],
+                      limits={"max_instrs": 20000000, "max_decisions": 3000})],
+        "bounds": {}, "assumptions": [],
     },
     "C20": {
         "runs": [
